@@ -55,6 +55,18 @@ def entity_confs(prog, item, rnd):
         if item.get("max_entities") and len(ents) > item["max_entities"]:
             ents = rnd.sample(ents, item["max_entities"])
         return [([e], [0]) for e in ents]
+    if prog.itype == "ridge":
+        # every local ridge (or a sample); edges of 3D cells carry a reflection code (0 / 1) that the kernel applies to
+        # the reference-ridge points: both codes with "allperms", else alternating over the ridges from a random start
+        ents = list(range(ne))
+        if item.get("max_entities") and len(ents) > item["max_entities"]:
+            ents = sorted(rnd.sample(ents, item["max_entities"]))
+        if s5.ridge_cellname(prog.cell) == "vertex":
+            return [([e], [0]) for e in ents]
+        if item.get("allperms"):
+            return [([e], [p]) for e in ents for p in (0, 1)]
+        p0 = rnd.randrange(2)
+        return [([e], [(p0 + i) % 2]) for i, e in enumerate(ents)]
     # interior facets: the pair (entity on '-', geometry) is generated together (cells really share the facet)
     return None
 
@@ -265,7 +277,7 @@ def _run(orc, meas, skipped, idx, it, r, progs, mod, k):
                 for s in range(prog.nsides):
                     fac = ent[s] if (prog.itype in ("exterior_facet", "interior_facet")
                                      or (prog.itype == "expression" and prog.etype == "facet")) else None
-                    xs.append(s5.make_geometry(prog, gk, rnd, facet=fac))
+                    xs.append(s5.make_geometry(prog, gk, rnd, facet=fac, ridge=ent[s] if prog.itype == "ridge" else None))
             lo, hi = it.get("data_range", (-3, 3))
             w, c = s5.random_data(prog, rnd, cx, lo, hi)
             if extra.get("w") is not None:
